@@ -301,6 +301,8 @@ func TestC16(t *testing.T) {
 
 // ---------- C12 ----------
 
+var corrBrokenC12 int
+
 func TestC12(t *testing.T) {
 	st := NewStats()
 	defer st.Write()
@@ -316,6 +318,9 @@ func TestC12(t *testing.T) {
 	projects := []string{"projects/p", "projects/P", "projects/p1", "projects/p_", "projects/p%", "projects/pé"}
 	for h := 0; h < nHist; h++ {
 		seed := Seed()*1009 + int64(h)
+		if h == 0 {
+			corrBrokenC12 = 0
+		}
 		r := rand.New(rand.NewSource(seed))
 		liveT, liveS, liveN := map[string]bool{}, map[string]bool{}, map[string]bool{}
 		var reqs []Rpc
@@ -334,6 +339,20 @@ func TestC12(t *testing.T) {
 				return planned[r.Intn(len(planned))]
 			}
 			return name(kind)
+		}
+		// a project with enough resources of each kind for every page size to meet page boundaries
+		if h%2 == 0 {
+			reqs = append(reqs, Rpc{Kind: "createTopic", Name: "projects/p/topics/w0"})
+			liveNames := []string{"w0", "w1", "w2", "w3", "w4", "w5", "w6"}
+			for i, n := range liveNames {
+				if i > 0 {
+					reqs = append(reqs, Rpc{Kind: "createTopic", Name: "projects/p/topics/" + n})
+				}
+				reqs = append(reqs, Rpc{Kind: "createSub", Sub: &SubReq{Name: "projects/p/subscriptions/" + n, Topic: "projects/p/topics/w0"}})
+				reqs = append(reqs, Rpc{Kind: "createSnap", Name: "projects/p/snapshots/" + n, Name2: "projects/p/subscriptions/" + n})
+			}
+			plannedT = append(plannedT, "projects/p/topics/w0")
+			plannedS = append(plannedS, "projects/p/subscriptions/w1")
 		}
 		for i := 0; i < 60; i++ {
 			switch r.Intn(12) {
@@ -516,7 +535,11 @@ func TestC12(t *testing.T) {
 			st.Sample(reqs[:8])
 		}
 		if !checkApiCorrespondence(t, m, st, "C12", seed, reqs, lines) {
-			break
+			// (the remaining histories are still run: one of them may show a concrete wrong answer)
+			corrBrokenC12++
+			if corrBrokenC12 > 6 {
+				break
+			}
 		}
 		st.Count("histories", 1)
 		st.Count("requests", len(results))
